@@ -427,7 +427,10 @@ def run_scenario(sc):
     stats["yield_points"] = sched.step
     stats["preemptions"] = sched.npre
     sig = sorted(f"{a}|{b}" for a, b in sched.pairs)
+    from .world import digest
+
     return {
+        "oplog": digest([[r["outs"], r["events"]] for r in results] + [sched.switches]),
         "viol": viol,
         "foreign": [],
         "herr": herr,
